@@ -7,6 +7,8 @@ MechanicActor (external) / DriverActor / TrackPreparationActor / TaskExecutionAc
 Oracle: invariants over what race control observes (exception type of race(), virtual time of the reply, race store / results
 store / summary recorder, Success messages).
 """
+import json
+
 from hypothesis import strategies as st
 
 from gen import races as gen_races
@@ -17,7 +19,8 @@ LEVEL = "fault_enumeration"
 ENGINE = "E1 virtual-time actor simulator + fault injection + Hypothesis"
 TECHNIQUE = "fault injection on a deterministic actor/asyncio simulator: generated races x one fault (kind x injection point), race-control-side invariants as oracle"
 RULE = (
-    "Generated: C01-style races x one fault: request failure (HTTP 5xx / success:false) under on-error=abort at a drawn request; fatal "
+    "Generated: C01-style races x one fault: request failure (HTTP 5xx / success:false) under on-error=abort at a drawn request (other tasks, "
+    "or in a class the failing task itself - then no fault -, may carry ignore-response-error-level=non-fatal); fatal "
     "ConnectionError under on-error=continue; parameter source raising at its n-th params(); runner raising KeyError / RuntimeError / "
     "RallyAssertionError; the driver's metrics store - or race control's, while it adds the metrics handed over after a step - failing on "
     "its n-th record, once or persistently (flush/close/externalise too); a "
@@ -36,6 +39,7 @@ BUDGET = {"quick": 1200, "thorough": 8000}
 REQUIRED_CLASSES = {
     "fired:runner-abort": 10, "fired:conn-error": 10, "fired:param-source": 10, "fired:runner-raises": 10, "fired:store-once": 10,
     "fired:store-persistent": 10, "fired:prep-task": 10, "fired:kill-worker": 10, "fired:cancel": 10, "no-fault": 8,
+    "strict-task-beside-tolerant-task": 8, "tolerated-by-task": 5,
 }
 TIMES = [0.5, 2.0, 6.5, 9.0, 14.0, 25.0, 45.0]
 
@@ -58,6 +62,14 @@ def _case(draw):
     if kind == "runner-abort":
         case["on_error"] = "abort"
         fault = {"kind": "runner", "task": leaf["name"], "client": client, "ordinal": ordinal, "outcome": draw(st.sampled_from(["api-5xx", "fail-dict", "api-4xx", "timeout"]))}
+        # ignore-response-error-level=non-fatal relaxes on-error=abort for the task that carries it, and for that task only
+        tol = draw(st.sampled_from(["none", "others", "others", "faulted"]))
+        if tol == "others":
+            for other in leaves:
+                if other is not leaf and draw(st.integers(0, 3)):
+                    other["tolerant"] = True
+        elif tol == "faulted":
+            leaf["tolerant"] = True
     elif kind == "conn-error":
         fault = {"kind": "runner", "task": leaf["name"], "client": client, "ordinal": ordinal, "outcome": "conn-error"}
     elif kind == "runner-raises":
@@ -149,6 +161,12 @@ def run_case(case, obs):
         obs.violation("blocking-call", str(r.error))
         return
     fired = r.fired_at is not None
+    if fired and kind == "runner-abort" and any(leaf.get("tolerant") for _, leaf in sim_race.leaves(case["schedule"]) if leaf["name"] == fault["task"]):
+        # docs/track.rst: with ignore-response-error-level=non-fatal the task ignores non-fatal errors under on-error=abort: not a fault
+        fired = False
+        obs.cls("tolerated-by-task")
+    elif fired and kind == "runner-abort" and any(leaf.get("tolerant") for _, leaf in sim_race.leaves(case["schedule"])):
+        obs.cls("strict-task-beside-tolerant-task")
     if not fired:
         # success path: the race completes, results are stored and printed exactly once
         obs.check(r.outcome == "returned", "success-path-failed", f"no fault fired but race() ended with {r.outcome}: {str(r.error)[:300]}")
@@ -198,3 +216,12 @@ def run_case(case, obs):
     else:
         obs.cls("phase:inside-a-step")
     obs.mark_nontrivial(n_workers >= 2)
+
+
+PROBES = {
+    # F23 (fixed 6f8e20a): race control's own store fails while it adds the metrics of the first task; the failure notification travels
+    # BenchmarkActor -> driver -> BenchmarkActor with a 2 s message delay while the second (last) task takes 1 s: the benchmark completed first
+    "failure-reported-as-success": json.loads(
+        '{"delays": [0, 0, 2, 0, 0, 6, 0, 0, 0, 0, 0, 0], "fault": {"kind": "store", "n": 1, "persistent": false, "where": "race-control"}, "fault_class": "store-once", "hosts": [1], "offsets": [0.0], "on_error": "continue", "preempt": null, "prep_tasks": [], "quiet": true, "schedule": [{"clients": 1, "completed_by": "e0t0", "parallel": [{"clients": 1, "iterations": 1, "mode": "iterations", "name": "e0t0", "requests": [{"outcome": "ok", "post": 0, "pre": 0, "shape": "dict", "unit": "ops", "weight": 1, "wire": [[0, 0.00390625]]}], "stride": 1, "throughput": {"kind": "number", "unit": "ops/s", "value": 1}, "warmup_iterations": null}]}, {"clients": 1, "completed_by": "e1t0", "parallel": [{"clients": 1, "mode": "time", "name": "e1t0", "requests": [{"outcome": "ok", "post": 0, "pre": 0, "shape": "dict", "unit": "ops", "weight": 1, "wire": [[0, 0.125]]}], "stride": 1, "throughput": {"kind": "number", "unit": "ops/s", "value": 1}, "time_period": 1, "warmup_time_period": 0}]}], "seed": 0, "test_mode": true, "wake_late": [0]}'
+    ),
+}
